@@ -4,6 +4,7 @@ CONSTANTS
   MaxStarts = 1
   MaxDrops = 1
   MaxForget = 0
+  MaxLinks = 0
   MaxDups = 1
   TieBreak = FALSE
   RoleByAddress = FALSE
